@@ -71,6 +71,18 @@ func suiteRoundTrip(r *report.Run) {
 				}()
 				enc, err := c.comp.Encode(x)
 				r.Case("rt|"+c.name+"|"+in.id, err == nil)
+				// what Encode/Decode returned earlier belongs to the caller: a later call must not change it
+				prevMu.Lock()
+				prev := prevOut[c.name]
+				prevMu.Unlock()
+				if prev != nil {
+					if !bytes.Equal(prev.enc, prev.encSnap) {
+						r.Violation("roundtrip:"+c.name+":earlier-Encode-result-changed-by-a-later-call", fmt.Sprintf("Encode result of input %s changed after encoding %s", prev.id, in.id), in.id)
+					}
+					if !bytes.Equal(prev.dec, prev.decSnap) {
+						r.Violation("roundtrip:"+c.name+":earlier-Decode-result-changed-by-a-later-call", fmt.Sprintf("Decode result of input %s changed after encoding %s", prev.id, in.id), in.id)
+					}
+				}
 				if err != nil {
 					r.Violation("roundtrip:"+c.name+":Encode-error:"+in.class, fmt.Sprintf("input %s: %v", in.id, err), in.id)
 					return
@@ -81,6 +93,11 @@ func suiteRoundTrip(r *report.Run) {
 				}
 				site = c.name + ":Decode"
 				dec, err := c.comp.Decode(append([]byte(nil), enc...))
+				if err == nil && len(x) <= 1<<16 {
+					prevMu.Lock()
+					prevOut[c.name] = &prevRes{id: in.id, enc: enc, encSnap: append([]byte(nil), enc...), dec: dec, decSnap: append([]byte(nil), dec...)}
+					prevMu.Unlock()
+				}
 				if err != nil {
 					r.Violation("roundtrip:"+c.name+":Decode(Encode(x))-error:"+in.class, fmt.Sprintf("input %s, encoding %s: %v", in.id, hexs(enc), err), in.id)
 				} else if !bytes.Equal(dec, orig) {
@@ -181,3 +198,14 @@ func suitePeerEncoded(r *report.Run) {
 	})
 	r.Extra("peer_encoded_streams", perHow)
 }
+
+type prevRes struct {
+	id                         string
+	enc, encSnap, dec, decSnap []byte
+}
+
+// prevOut holds, per codec, the results of the input most recently processed by any worker goroutine.
+var (
+	prevOut = map[string]*prevRes{}
+	prevMu  sync.Mutex
+)
